@@ -221,6 +221,17 @@ class ProgListener(ProcessListener):
         pid = process.pid
         w.notifications.setdefault(pid, []).append([name, [_summ(a) for a in args]])
         w.extra.setdefault('noted_states', []).append((pid, name, process.state.value))
+        if name == 'on_output_emitted' and len(args) >= 2:
+            # whoever is told about an output finds it among the outputs of the process (a listener that checkpoints or
+            # forwards on every emission reads them at this very moment)
+            cur = process.outputs
+            try:
+                for part in str(args[0]).split(process.spec().namespace_separator):
+                    cur = cur[part]
+                visible = cur is args[1] or cur == args[1]
+            except (KeyError, TypeError):
+                visible = False
+            w.extra.setdefault('emitted_visible', []).append((pid, args[0], visible))
         cnt = w.listener_counts.get((pid, name), 0) + 1
         w.listener_counts[(pid, name)] = cnt
         for plan in w.listener_plan.get(pid, []):
